@@ -103,7 +103,7 @@ class S:
             return self
         if self.e.is_negative:
             return S(-self.e)
-        if self.e.is_real is False or self.e.has(sp.I):
+        if self.e.is_real is not True:
             return S(sp.Abs(self.e))
         return self if _CTX.decide(self.e >= 0) else S(-self.e)
 
@@ -205,11 +205,27 @@ MATH_SHIMS = {"sqrt": _lift(sp.sqrt), "exp": _lift(sp.exp), "sin": _lift(sp.sin)
               "sinh": _lift(sp.sinh)}
 
 
+class SymArr(_np.ndarray):
+    """ndarray subclass that survives NumPy operations; `astype(float)` keeps symbolic storage (object dtype)"""
+
+    def astype(self, dtype, *a, **k):
+        try:
+            dt = _np.dtype(dtype)
+        except TypeError:
+            dt = None
+        if dt is not None and (_np.issubdtype(dt, _np.floating) or _np.issubdtype(dt, _np.complexfloating)):
+            if self.dtype == object:
+                return self.copy()
+            base = _np.ndarray.astype(self.view(_np.ndarray), dtype)
+            return NumpyProxy._obj(base)
+        return _np.ndarray.astype(self, dtype, *a, **k)
+
+
 def sym_array(exprs):
     a = _np.empty(len(exprs), dtype=object)
     for i, e in enumerate(exprs):
         a[i] = e if isinstance(e, S) else S(e)
-    return a
+    return a.view(SymArr)
 
 
 class NumpyProxy:
@@ -238,15 +254,15 @@ class NumpyProxy:
         src = a.reshape(-1)
         for i in range(src.size):
             flat[i] = src[i]
-        return out
+        return out.view(SymArr)
 
     def zeros(self, shape, dtype=float, order="C"):
         a = _np.zeros(shape, dtype)
-        return self._obj(a) if _np.issubdtype(a.dtype, _np.floating) or _np.issubdtype(a.dtype, _np.complexfloating) else a
+        return self._obj(a) if _np.issubdtype(a.dtype, _np.floating) or _np.issubdtype(a.dtype, _np.complexfloating) else a.view(SymArr)
 
     def ones(self, shape, dtype=float, order="C"):
         a = _np.ones(shape, dtype)
-        return self._obj(a) if _np.issubdtype(a.dtype, _np.floating) else a
+        return self._obj(a) if _np.issubdtype(a.dtype, _np.floating) else a.view(SymArr)
 
     def empty(self, shape, dtype=float, order="C"):
         return self.zeros(shape, dtype)
@@ -255,15 +271,20 @@ class NumpyProxy:
         r = _np.array(obj, *a, **{kk: v for kk, v in k.items() if kk != "dtype"}) if any(isinstance(x, S) for x in _flat(obj)) else _np.array(obj, *a, **k)
         if r.dtype != object and (_np.issubdtype(r.dtype, _np.floating)):
             return self._obj(r)
-        return r
+        return r.view(SymArr)
 
     def asarray(self, obj, *a, **k):
         if isinstance(obj, _np.ndarray):
             return obj
         return self.array(obj)
 
-    def atleast_1d(self, obj):
-        return _np.atleast_1d(obj) if isinstance(obj, _np.ndarray) else self.array([obj]) if not isinstance(obj, (list, tuple)) else self.array(obj)
+    def atleast_1d(self, *objs):
+        def one(obj):
+            if isinstance(obj, _np.ndarray):
+                return _np.atleast_1d(obj)
+            return self.array([obj]) if not isinstance(obj, (list, tuple)) else self.array(obj)
+        r = [one(o) for o in objs]
+        return r[0] if len(r) == 1 else r
 
     def abs(self, x):
         return _np.abs(x) if isinstance(x, _np.ndarray) else abs(x)
@@ -290,18 +311,31 @@ def _flat(o):
 
 # ---------------------------------------------------------------------------------------------
 def load_module(repo, relpath, name=None):
-    """import a repository file under a private module name (relative imports inside pyyeti still resolve to
-    the package that sits in the same tree because `repo` is put first on sys.path)"""
-    path = os.path.join(repo, relpath)
-    if repo not in sys.path:
+    """import a repository module from the tree at `repo` (put first on sys.path so the whole package is that tree's)"""
+    repo = os.path.abspath(repo)
+    if sys.path[0] != repo:
         sys.path.insert(0, repo)
-    modname = name or ("vt_" + relpath.replace("/", "_").replace(".py", ""))
-    pkg = relpath.replace("/", ".")[:-3]
-    # keep package context for relative imports
-    spec = importlib.util.spec_from_file_location(pkg, path)
-    m = importlib.util.module_from_spec(spec)
-    spec.loader.exec_module(m)
+    dotted = relpath.replace("/", ".")[:-3]
+    m = importlib.import_module(dotted)
+    if not os.path.abspath(m.__file__).startswith(repo):
+        raise ImportError("%s was imported from %s, not from %s" % (dotted, m.__file__, repo))
     return m
+
+
+class Multi:
+    """install the shims in several modules at once"""
+
+    def __init__(self, mods, regime, extra=None):
+        self.cms = [Shimmed(mm, regime, (extra or {}).get(mm.__name__)) for mm in mods]
+
+    def __enter__(self):
+        for c in self.cms:
+            c.__enter__()
+        return self
+
+    def __exit__(self, *a):
+        for c in reversed(self.cms):
+            c.__exit__(*a)
 
 
 class Shimmed:
@@ -352,21 +386,38 @@ def prove_zero(expr, assumptions_subs=None, budget=60, numeric_points=None, nume
     """returns (status, detail):  'proved' | 'failed' (numeric witness of non-zero) | 'undecided'"""
     t0 = time.time()
     e = sp.sympify(expr)
+    if e.has(sp.Limit):
+        e = e.doit()
     if e == 0:
         return "proved", {"method": "syntactic"}
     # numeric refutation first (cheap, and gives a witness)
+    import mpmath
     syms = sorted(e.free_symbols, key=str)
     pts = numeric_points or default_points(syms)
-    worst = 0
-    for pt in pts:
-        try:
-            v = sp.N(e.subs(pt), 50)
-            scale = max([abs(sp.N(a.subs(pt), 50)) for a in sp.Add.make_args(e)] + [sp.Float(1)])
-            if v.is_number and (abs(v) / scale > sp.Float("1e-25")):
-                return "failed", {"witness": {str(k): str(v_) for k, v_ in pt.items()}, "value": str(sp.N(v, 12)),
-                                  "relative": str(sp.N(abs(v) / scale, 6))}
-        except Exception:
-            continue
+    terms = list(sp.Add.make_args(e))
+    try:
+        fn = sp.lambdify(syms, [e] + terms, "mpmath")
+    except Exception:
+        fn = None
+    old = mpmath.mp.dps
+    mpmath.mp.dps = 50
+    try:
+        for pt in pts:
+            try:
+                if fn is not None:
+                    vals = fn(*[mpmath.mpf(int(pt[s_].p)) / mpmath.mpf(int(pt[s_].q)) for s_ in syms])
+                    v = vals[0]
+                    scale = max([abs(x) for x in vals[1:]] + [mpmath.mpf(1)])
+                else:
+                    v = sp.N(e.subs(pt), 50)
+                    scale = max([abs(sp.N(a_.subs(pt), 50)) for a_ in terms] + [sp.Float(1)])
+                if abs(v) / scale > mpmath.mpf("1e-25"):
+                    return "failed", {"witness": {str(k_): str(v_) for k_, v_ in pt.items()}, "value": str(mpmath.nstr(v, 12)) if fn is not None else str(v),
+                                      "relative": str(mpmath.nstr(abs(v) / scale, 6)) if fn is not None else ""}
+            except Exception:
+                continue
+    finally:
+        mpmath.mp.dps = old
     if numeric_only:
         return "numeric-ok", {"points": len(pts), "tolerance": "1e-25 relative, 50 digits"}
     for method, f in (("expand", lambda x: sp.expand(x)),
